@@ -95,6 +95,14 @@ def parseOp : List String → Option Op
   | ["kp_write_key_store", d] => do pure (.kpWriteKeyStore (← parseHex d))
   | ["kp_read_key_store"] => some .kpReadKeyStore
   | ["reset", r] => do pure (.reset (← parseBool r))
+  | ["update_life_cycle", lc] => do pure (Op.updateLifeCycle (← lc.toNat?))
+  | ["ele_message", a, c, ra, rc] => do pure (Op.eleMessage (← a.toNat?) (← c.toNat?) (← ra.toNat?) (← rc.toNat?))
+  | ["tp_oem_set_master_share", a, b, c, d] => do
+    pure (Op.tpOemSetMasterShare (← a.toNat?) (← b.toNat?) (← c.toNat?) (← d.toNat?))
+  | ["tp_hsm_enc_blk", a, b, k, c, d, n, e, f] => do
+    pure (Op.tpHsmEncBlk (← a.toNat?) (← b.toNat?) (← k.toNat?) (← c.toNat?) (← d.toNat?) (← n.toNat?) (← e.toNat?) (← f.toNat?))
+  | ["fuse_program", a, d, m] => do pure (.fuseProgram (← a.toNat?) (← parseHex d) (← m.toNat?))
+  | ["fuse_read", a, n, m] => do pure (.fuseRead (← a.toNat?) (← n.toNat?) (← m.toNat?))
   | _ => none
 
 def phaseStr : Phase → String
